@@ -441,7 +441,28 @@ def b_zip(ex, state, args, kwargs, sv):
 
 @builtin("sorted", "reversed")
 def b_sorted(ex, state, args, kwargs, sv):
+    a = args[0]
+    if isinstance(a, VRef) and ex.obj(state, a).kind == "list" and ex.obj(state, a).items is None and not kwargs:
+        # a permutation of a list of unknown content: same length and element kind, order unknown (over-approximation)
+        src = ex.obj(state, a)
+        o = HObj("list")
+        o.items, o.elem = None, src.elem
+        o.seq = z3.Const(fresh_name("sorted"), src.seq.sort())
+        state.assume(z3.Length(o.seq) == z3.Length(src.seq))
+        return state.alloc(o)
     raise Unsupported("sorted/reversed")
+
+
+@builtin("list.reverse")
+def b_list_reverse(ex, state, args, kwargs, sv):
+    o = state.heap[sv.oid]
+    if o.items is not None:
+        o.items = list(reversed(o.items))
+    else:
+        n = z3.Length(o.seq)
+        o.seq = z3.Const(fresh_name("reversed"), o.seq.sort())
+        state.assume(z3.Length(o.seq) == n)
+    return VNone
 
 
 @builtin("any")
